@@ -37,6 +37,7 @@ def process(
     normalize_options,
     format_options,
     triples,
+    state=None,
 ):
     """Read graphs from *f* and write to *out*."""
 
@@ -44,10 +45,11 @@ def process(
     codec = PENMANCodec(model=model)
     trees = codec.iterparse(f)
 
-    first = True
+    if state is None:
+        state = {}  # shared between calls writing to the same *out*
     for t in trees:
-        if first:
-            first = False
+        if state.get('first', True):
+            state['first'] = False
         else:
             print(file=out)
 
@@ -314,6 +316,7 @@ def main():
     }
 
     exitcode = 0
+    state = {}
     if args.FILE:
         for file in args.FILE:
             with open(file, encoding=args.encoding) as f:
@@ -326,6 +329,7 @@ def main():
                     normalize_options,
                     format_options,
                     args.triples,
+                    state=state,
                 )
     else:
         exitcode = process(
